@@ -62,6 +62,22 @@ def decide(ctx: Ctx, cases: list[dict], spec_events=None):
             if isinstance(evs, dict):
                 ctx.violation("off_lattice", {"case": c, "embedding": en}, evs, {"embedding": en})
                 continue
+            # TLC integers are 32-bit: a result whose regions add up to more than twice the die (only a wrong result can)
+            # would overflow the area sums of DieTrace.  Such an observation is reported here and not sent to TLC.
+            die_area = c["mdw"] * c["mdh"]
+            too_big = None
+            for e in evs:
+                tot = sum((t[2] - t[0]) * (t[3] - t[1]) for k in ("ground", "spec", "block", "fixed", "refinable") for t in e.get(k, []))
+                if tot > 2 * die_area + 16 or tot > 2 ** 31 - 1:
+                    too_big = (e, tot)
+                    break
+            if too_big:
+                e, tot = too_big
+                ctx.violation("regions_exceed_die", {"dw": c["mdw"], "dh": c["mdh"], "regs": c["mregs"], "ops": c["ops"],
+                                                     "event": evs.index(e) + 1, "embeddings": [en]},
+                              {"total_area_of_reported_regions": tot, "die_area": die_area, "op": e.get("op")},
+                              {"clause": "regions_exceed_die", "op": e.get("op")})
+                continue
             clean = []
             for e in evs:
                 e = {k: v for k, v in e.items() if k not in ("why", "odd_exception", "n_refinable", "n_fixed")}
